@@ -127,4 +127,19 @@ PROPERTIES = {
              'Response.parse / NameValueRecord.parse are assumed here; the decoders are C19',
         not_decided=['body == dec(payload) as one end-to-end equation (needs zlib semantics: C19 / bounded stand-in)'],
     ),
+    'C16': dict(
+        modules=['url', 'request'], level='proof', bounded=['c16_wire.py'],
+        claim='RawRequest.to_bytes is request line + serialised fields + blank line and nothing else; Request.prepare_for_send sets the target to the parsed URL\'s '
+              'normalised path[?query] (the absolute normalised URL in proxy form) and the Host field to that URL\'s hostname_with_port, leaving every other field '
+              'untouched; WebSession._process_redirect, for every redirect code (fresh request for 301/302/303, replayed copy for 307/308), installs a next request '
+              'whose Host names the NEXT URL, whose target is the next URL\'s path and query, which carries no Authorization / Cookie field of the previous hop and no '
+              'login (username/password) when the host changed; _add_basic_auth_header only ever writes a single-line "Basic <base64>" Authorization built from the '
+              'request\'s own URL credentials or login; _add_referrer never sends an https referrer to an http URL. Two genuine defects found by these obligations '
+              'were repaired (fix: commits f11c9f2, aaabb31).',
+        note='assumed: NameValueRecord.to_bytes (str.format/textwrap over an ordered multi-map: abstract `fields_wire`), http.cookiejar; both are exercised on the real '
+             'objects by the bounded stand-in c16_wire.py (labelled bounded): CR/LF/space/control injection through URL, Location, referrer and Set-Cookie data, '
+             'exactly one Host line, cookies of a.example never sent to 8 look-alike hosts over all redirect codes. Character set of the target rests on C10.',
+        not_decided=['the --http-user login is global by design: it is attached to the first hop of every item whatever its host (Wget semantics); the contract only '
+                     'forbids carrying it across a host change inside one redirect chain'],
+    ),
 }
